@@ -210,6 +210,9 @@ func runC20Corpus(c *fw.Ctx) {
 			continue
 		}
 		for _, f := range fr {
+			if f.needs != "" {
+				continue
+			}
 			ft := doc.Text(f.nodes())
 			var fsx []string
 			for _, t := range parseForest(implScan("JSIGHT 0.3\n" + ft).tree)[1:] {
